@@ -616,6 +616,9 @@ func handleInputStream(s *Session, handler Handler) (err error) {
 	// If this is a stanza, normalize the "from" attribute.
 	if stanza.Is(start.Name, s.in.XMLNS) {
 		for i, attr := range start.Attr {
+			if attr.Name.Space != "" {
+				continue
+			}
 			if attr.Name.Local == "from" /*&& attr.Name.Space == start.Name.Space*/ {
 				local := s.LocalAddr().Bare().String()
 				// Try a direct comparison first to avoid expensive JID parsing.
@@ -684,7 +687,15 @@ func handleInputStream(s *Session, handler Handler) (err error) {
 	iqNeedsResp := typ == string(stanza.GetIQ) || typ == string(stanza.SetIQ)
 	// If the user did not write a response to an IQ, send a default one.
 	if iqOk && iqNeedsResp && !rw.wroteResp {
-		_, fromAttr := attr.Get(start.Attr, "from")
+		// (attr.Get matches by local name alone: a from of another namespace is
+		// not the sender.)
+		var fromAttr string
+		for _, a := range start.Attr {
+			if a.Name.Space == "" && a.Name.Local == "from" {
+				fromAttr = a.Value
+				break
+			}
+		}
 		var to jid.JID
 		if fromAttr != "" {
 			to, err = jid.Parse(fromAttr)
@@ -720,6 +731,11 @@ func getIDTyp(attrs []xml.Attr) (int, int, string, string) {
 	idIdx := -1
 	typIdx := -1
 	for idx, attr := range attrs {
+		if attr.Name.Space != "" {
+			// An attribute of another namespace is not the stanza's id or type,
+			// whatever its local name.
+			continue
+		}
 		switch attr.Name.Local {
 		case "id":
 			id = attr.Value
